@@ -172,6 +172,15 @@ PROPS = {
         "trusted_base": ["harness/src/s_macros.rs (generator of the crate work/c18gen, which is rebuilt on every run)", "tools/props.py cmp_macros, oracle_macros", "lean/Codec.lean, lean/Driver.lean runMacros"],
         "assumptions": [],
     },
+    "C19": {
+        "module": "BiscuitModel.Props.C19",
+        "streams": ["capi"],
+        "level_text": "Lean 4 theorems about the handle and buffer protocol of biscuit-capi (Model/CApi, with the wire encoding of Model/Wire): update_keeps_handle and adds_never_abort (whatever sequence of additions - accepted or refused - is applied to a builder handle, the handle keeps a builder and no call aborts), refused_add_keeps_builder, null_handle_is_error, serialize_writes_announced and serialize_sealed_writes_announced (a buffer of the announced size receives exactly the announced number of bytes, sealed or not), wrong_announced_size_aborts, sealed_size_exceeds_unsealed (with a 32-byte next key and a 64-byte signature the sealed token is exactly 32 bytes longer than the unsealed one), public_key_32_bytes_fits, public_key_33_bytes_aborts (the witness of the known finding). Tie: stream capi - sequences of calls to the extern \"C\" functions of biscuit-capi, in process, in a child (an abort kills the child: the case records the operation it died on and a new child continues): key pairs of both algorithms from seeds (and bad seeds), public keys, key serialization round trips, token builders with accepted and refused additions in any order, context and root key id, build, sizes, serialization sealed and unsealed into buffers of the announced size framed by canary bytes, parsing back, block count, contexts, print and print_block_source for indices 0..count+1, block builders and append (also on sealed tokens), authorizer builders, build with and without a token, authorize with the failed-check accessors, authorizer_print, biscuit_authorizer - each also with null handles; next to every call the corresponding Rust operation runs on mirror objects and the comparator requires the same result, the same bytes, the same error message and an error kind whenever the call fails. The model predicts, per operation, value / error / abort for the handle and buffer protocol and the sealed-size difference.",
+        "level_note": "Partial: that every C function returns what the Rust operation returns is a differential statement about two pieces of code, decided by the stream; aborts are runtime behaviour, observed through the death of the child. The authorizer runs with the default 1 ms time budget: an outcome that mentions Timeout on either side is not compared.",
+        "rule": "capi stream: corpus first, then seeded call sequences (300 quick, 4000 thorough) of 25-40 operations; every case is non-trivial; distinct = distinct case JSON",
+        "trusted_base": ["harness/src/s_capi.rs (operation interpreter, Rust mirror, canary buffers; the child-process runner of common.rs)", "tools/props.py cmp_capi, oracle_capi", "lean/Codec.lean, lean/Driver.lean runCApi (the parser's verdict on every added text is an input of the model)"],
+        "assumptions": [],
+    },
     "C20": {
         "module": "BiscuitModel.Props.C20",
         "streams": ["params"],
@@ -793,7 +802,136 @@ def oracle_macros(case, impl):
     return "macro-built and runtime-built results differ: %s vs %s" % (json.dumps(m)[:200], json.dumps(r)[:200])
 
 
-COMPARATORS = {"macros": cmp_macros, "untrusted": cmp_untrusted, "keys": cmp_keys, "params": cmp_params, "print": cmp_print, "snapshot": cmp_snapshot, "symbols": cmp_symbols, "versions": cmp_versions, "chain": cmp_chain, "limits": cmp_limits, "expr": cmp_default, "engine": cmp_engine, "authz": cmp_authz, "atten": cmp_atten, "determ": cmp_determ}
+# ---------------------------------------------------------------- capi stream (C19)
+def _capi_op_diff(op, r):
+    """difference between the C result and the Rust mirror for one operation, or None"""
+    name = op["op"]
+    c, m = r.get("c"), r.get("r")
+    err, rerr = r.get("err"), r.get("rerr")
+    timeouts = "Timeout" in json.dumps(r)
+    if name in ("kp_new", "kp_public", "pk_deserialize", "bb_new", "blk_new", "azb_new", "bb_build", "tok_from", "tok_append", "azb_build", "tok_authorizer") or name.endswith("_add"):
+        if m is None:
+            # null handle or invalid argument on the C side only: must be an error, reported as InvalidArgument
+            if c is True:
+                return "succeeds with a null handle or an invalid argument"
+            if err is None or err.get("kind") != 1:
+                return "invalid argument not reported through the error channel: %s" % json.dumps(err)
+            return None
+        if c != m:
+            return "C returns %s where the Rust operation returns %s (%s)" % (c, m, rerr)
+        if c is False:
+            if err is None or err.get("kind") in (None, 0):
+                return "failure without an error in the error channel (Rust: %s)" % rerr
+            if rerr is not None and err.get("message") != rerr:
+                return "error message differs: %r vs %r" % (err.get("message"), rerr)
+        return None
+    if name == "kp_roundtrip":
+        if m is None or m.get("bytes") is None:
+            return None
+        if c["n"] != 32 or c["bytes"] != m["bytes"] or not c["intact"] or not c["back"]:
+            return "key_pair_serialize / deserialize: %s vs %s" % (json.dumps(c), json.dumps(m))
+        if r.get("same") is not True:
+            return "the key pair imported with key_pair_deserialize is not the exported pair (a token it signs does not verify under the original public key)"
+        return None
+    if name == "pk_serialize":
+        if m is None or m.get("bytes") is None:
+            return None if c["n"] == 0 else "public_key_serialize writes for a null handle"
+        if c["bytes"] != m["bytes"] or c["n"] != len(m["bytes"]) // 2 or not c["intact"]:
+            return "public_key_serialize: %s vs %s" % (json.dumps(c), json.dumps(m))
+        return None
+    if name == "tok_sizes":
+        if m is None or m.get("size") is None:
+            return None if c == {"size": 0, "sealed": 0} else "sizes for a null token: %s" % json.dumps(c)
+        if c != m:
+            return "sizes differ: C %s, Rust %s" % (json.dumps(c), json.dumps(m))
+        return None
+    if name in ("tok_serialize", "tok_serialize_sealed"):
+        if not c["intact"]:
+            return "bytes written outside the announced buffer"
+        if c["written"] != c["announced"]:
+            return "announces %d bytes and writes %d" % (c["announced"], c["written"])
+        if m is not None and m.get("bytes") is not None and c["bytes"] != m["bytes"]:
+            return "serialized bytes differ from the Rust serialization"
+        return None
+    if name == "tok_info":
+        if m is None:
+            return None if c["count"] == 0 and c["print"] is None else "information for a null token"
+        if c != m:
+            return "token information differs: %s vs %s" % (json.dumps(c)[:300], json.dumps(m)[:300])
+        return None
+    if name == "az_authorize":
+        if m is None or timeouts:
+            return None
+        if c["ok"] != m["ok"]:
+            return "authorization outcome differs: C %s, Rust %s (%s)" % (c["ok"], m["ok"], rerr)
+        if c["ok"] is False:
+            if c["checks"] != m["checks"]:
+                return "failed-check details differ: %s vs %s" % (json.dumps(c["checks"])[:300], json.dumps(m["checks"])[:300])
+            if err is None or (rerr is not None and err.get("message") != rerr):
+                return "error message differs: %r vs %r" % (err and err.get("message"), rerr)
+        if c["print"] != m["print"]:
+            return "authorizer_print differs from print_world"
+        return None
+    return None
+
+
+def cmp_capi(case, impl, model):
+    if "driver_error" in model:
+        return "driver error: %s" % model["driver_error"]
+    ops = case["ops"]
+    got = impl.get("ops", [])
+    aborted_at = None
+    if "abort" in impl:
+        # the child died: the operation it was on is in the progress note
+        try:
+            aborted_at = int(impl.get("at", "").split()[3])
+        except Exception:
+            return "the process died: %s (%s)" % (impl["abort"], impl.get("at"))
+    for i, (op, pred) in enumerate(zip(ops, model["ops"])):
+        if aborted_at is not None and i == aborted_at:
+            if pred == "abort":
+                return None     # the model predicts it too: judged by the oracle / known finding
+            return "operation %d (%s) aborts the process; the handle / buffer model predicts %s" % (i, op["op"], json.dumps(pred))
+        if i >= len(got):
+            break
+        r = got[i]
+        if "panic" in r:
+            return "operation %d (%s) panics: %s" % (i, op["op"], r["panic"])
+        if pred == "abort":
+            return "operation %d (%s) returns although the buffer model predicts an abort" % (i, op["op"])
+        if pred in ("value", "error"):
+            c = r.get("c")
+            ok = c is True or (isinstance(c, dict) and c.get("n", 0) > 0)
+            if (pred == "value") != ok:
+                return "operation %d (%s): C result %s, handle model predicts %s" % (i, op["op"], json.dumps(c)[:100], pred)
+        if isinstance(pred, dict) and pred.get("sealed_minus_unsealed") is not None:
+            c = r["c"]
+            if c["size"] and c["sealed"] - c["size"] != pred["sealed_minus_unsealed"]:
+                return "operation %d: sealed size %d, unsealed %d; the wire model predicts a difference of %d" % (i, c["sealed"], c["size"], pred["sealed_minus_unsealed"])
+        d = _capi_op_diff(op, r)
+        if d:
+            return "operation %d (%s): %s" % (i, op["op"], d)
+    return None
+
+
+def oracle_capi(case, impl):
+    """C19 on the implementation alone: no call aborts the process"""
+    if "abort" in impl:
+        return "the process died during %s: %s" % (impl.get("at"), impl["abort"])
+    for i, r in enumerate(impl.get("ops", [])):
+        if "panic" in r:
+            return "operation %d panics: %s" % (i, r["panic"])
+    return None
+
+
+def match_capi_key_buffer(k, d):
+    """public_key_serialize copies a 33-byte secp256r1 key into the documented 32-byte buffer"""
+    if d["stream"] != "capi" or "died" not in d["why"]:
+        return False
+    return "pk_serialize" in d["impl"].get("at", "")
+
+
+COMPARATORS = {"capi": cmp_capi, "macros": cmp_macros, "untrusted": cmp_untrusted, "keys": cmp_keys, "params": cmp_params, "print": cmp_print, "snapshot": cmp_snapshot, "symbols": cmp_symbols, "versions": cmp_versions, "chain": cmp_chain, "limits": cmp_limits, "expr": cmp_default, "engine": cmp_engine, "authz": cmp_authz, "atten": cmp_atten, "determ": cmp_determ}
 
 
 def nontrivial(stream, case, impl):
@@ -961,7 +1099,7 @@ def oracle_limits(case, impl):
     return None
 
 
-ORACLES = {("C18", "macros"): oracle_macros, ("C09", "untrusted"): oracle_untrusted, ("C17", "keys"): oracle_keys, ("C20", "params"): oracle_params, ("C14", "print"): oracle_print, ("C13", "snapshot"): oracle_snapshot, ("C12", "symbols"): oracle_symbols, ("C10", "limits"): oracle_limits, ("C06", "expr"): oracle_expr, ("C03", "atten"): oracle_atten}
+ORACLES = {("C19", "capi"): oracle_capi, ("C18", "macros"): oracle_macros, ("C09", "untrusted"): oracle_untrusted, ("C17", "keys"): oracle_keys, ("C20", "params"): oracle_params, ("C14", "print"): oracle_print, ("C13", "snapshot"): oracle_snapshot, ("C12", "symbols"): oracle_symbols, ("C10", "limits"): oracle_limits, ("C06", "expr"): oracle_expr, ("C03", "atten"): oracle_atten}
 
 
 def signature(d):
@@ -1014,7 +1152,7 @@ def match_policies_key_scope(k, d):
     return d["why"].startswith("policies restore error") and "UnknownExternalKey" in d["why"] and '"key"' in json.dumps(d["case"]["az"])
 
 
-MATCHERS = {"source-nesting": match_source_nesting, "map-key-parameter-type": match_map_key_parameter_type, "singleton-set-parameter": match_singleton_set_parameter, "policies-key-scope": match_policies_key_scope, "ecdsa-s": match_ecdsa_s, "amb": match_amb, "time-after-failed-run": match_time_after_failed_run}
+MATCHERS = {"capi-key-buffer": match_capi_key_buffer, "source-nesting": match_source_nesting, "map-key-parameter-type": match_map_key_parameter_type, "singleton-set-parameter": match_singleton_set_parameter, "policies-key-scope": match_policies_key_scope, "ecdsa-s": match_ecdsa_s, "amb": match_amb, "time-after-failed-run": match_time_after_failed_run}
 
 
 # ---------------------------------------------------------------- shrinking
